@@ -116,3 +116,62 @@ Proof.
   destruct (join_loop_some (S (length (compact segments))) (compact segments) []) as (l & ->); [lia|].
   discriminate.
 Qed.
+
+(* ---------------------------------------------------------------- invariant rule for the two loops *)
+Definition stopped (cur : multisegment) (segs : list segment) : Prop :=
+  segs = [] \/ pt_eqb (ms_first cur) (ms_last cur) = true \/
+  (forall s, In s segs -> match_seg (ms_first cur) (ms_last cur) s = None).
+
+Section JoinInvariant.
+  Variable P : list multisegment -> multisegment -> list segment -> Prop. (* inner loop state *)
+  Variable Q : list segment -> list multisegment -> Prop.                  (* outer loop state *)
+  Hypothesis Hstart : forall segs lists, segs <> [] -> Q segs lists ->
+    P lists [last segs dummy_seg] (removelast segs).
+  Hypothesis Hstep : forall lists cur segs i s f,
+    P lists cur segs -> pt_eqb (ms_first cur) (ms_last cur) = false ->
+    nth_error segs i = Some s -> match_seg (ms_first cur) (ms_last cur) s = Some f ->
+    P lists (apply_fit cur s f) (remove_nth i segs).
+  Hypothesis Hdone : forall lists cur segs,
+    P lists cur segs -> stopped cur segs -> Q segs (lists ++ [cur]).
+
+  Lemma grow_inv : forall fuel lists cur segs cur' segs',
+    grow fuel cur segs = Some (cur', segs') -> P lists cur segs ->
+    P lists cur' segs' /\ stopped cur' segs'.
+  Proof.
+    induction fuel as [|fu IH]; intros lists cur segs cur' segs' Hg HP; [discriminate|].
+    destruct segs as [|s0 r] eqn:Es.
+    - simpl in Hg. inversion Hg; subst. split; [assumption|left; reflexivity].
+    - rewrite <- Es in *. rewrite grow_unfold in Hg by (subst; discriminate).
+      destruct (pt_eqb (ms_first cur) (ms_last cur)) eqn:Hc.
+      + inversion Hg; subst cur' segs'. split; [assumption|right; left; assumption].
+      + destruct (find_fit (ms_first cur) (ms_last cur) segs 0) as [[[i s] f]|] eqn:Hfind.
+        * apply find_fit_spec in Hfind. destruct Hfind as (j & Hi & Hn & Hm). simpl in Hi. subst i.
+          assert (Hj : (j < length segs)%nat) by (apply nth_error_Some; congruence).
+          rewrite remove_shift_eq in Hg by assumption.
+          eapply IH; [exact Hg|]. eapply Hstep; eassumption.
+        * inversion Hg; subst cur' segs'. split; [assumption|].
+          right; right. eapply find_fit_none; eassumption.
+  Qed.
+
+  Lemma join_loop_inv : forall fuel segs lists out,
+    join_loop fuel segs lists = Some out -> Q segs lists -> Q [] out.
+  Proof.
+    induction fuel as [|fu IH]; intros segs lists out Hj HQ; [discriminate|].
+    destruct segs as [|s0 r] eqn:Es.
+    - simpl in Hj. inversion Hj; subst. assumption.
+    - rewrite <- Es in *. rewrite join_loop_unfold in Hj by (subst; discriminate).
+      destruct (grow (S (length (removelast segs))) [last segs dummy_seg] (removelast segs))
+        as [[c' s']|] eqn:Hg; [|discriminate].
+      eapply grow_inv in Hg; [|apply Hstart; [subst; discriminate|exact HQ]].
+      destruct Hg as [HP Hs]. eapply IH; [exact Hj|]. apply Hdone; assumption.
+  Qed.
+
+  Lemma join_inv : forall segments out,
+    Q (compact segments) [] -> join segments = JoinOk out -> Q [] out.
+  Proof.
+    intros segments out HQ Hj. unfold join in Hj.
+    destruct (join_loop (S (length (compact segments))) (compact segments) []) as [l|] eqn:E;
+      [|discriminate].
+    inversion Hj; subst. eapply join_loop_inv; eassumption.
+  Qed.
+End JoinInvariant.
